@@ -16,7 +16,7 @@ RULE = ('cases: a peer-model conversation for a client or server (after a prefix
         'into several states) mutated structurally (fields, lengths, types, flags, stream ids, duplication, '
         'reordering, adversarial HPACK blocks: bad indices, truncated integers/strings, Huffman garbage, empty '
         'names, non-UTF-8, table-size updates, uninterpretable values in the fields the library interprets such as '
-        'content-length and :status), CONTINUATION floods of 63..3000 empty or tiny fragments, and/or bytewise, or raw bytes, fed in drawn chunks under a drawn '
+        'content-length and :status), CONTINUATION floods of 63..3000 empty or tiny fragments, floods of 1100..2500 small frames of one kind (ALTSVC, unknown, PRIORITY, PING, SETTINGS, WINDOW_UPDATE), and/or bytewise, or raw bytes, fed in drawn chunks under a drawn '
         'combination of the four validation/normalisation switches and header_encoding; non-trivial = the input '
         'holds >= 2 complete frames and at least one stream-level event or an error was produced; distinct by '
         'concrete trace; violations are bucketed by (exception type, innermost h2 function)')
@@ -46,7 +46,7 @@ def run_case(data):
         'header_encoding': 'utf-8' if cfgbits & 64 else None,
     }
     mode = ch.weighted([(6, 'frames'), (2, 'frames+bytes'), (2, 'bytes'), (1, 'raw'), (1, 'valid'), (1, 'cont-flood'),
-                        (3, 'blocks')])
+                        (3, 'blocks'), (1, 'frame-flood')])
     frames = sc.frames
     start = 0 if sc.client else 1
     if mode in ('frames', 'frames+bytes'):
@@ -56,6 +56,11 @@ def run_case(data):
         frames, hits = bytesgen.place_adversarial_blocks(ch, frames)
         if hits:
             r.labels.add('adversarial-block-in-position')
+    if mode == 'frame-flood':
+        # more small frames in one receive_data call than the interpreter allows nested calls
+        flood, fk = bytesgen.frame_flood(ch)
+        frames = list(frames) + flood + list(frames[-1:])
+        r.labels.add('flood-of-' + fk)
     if mode == 'cont-flood':
         frames = list(frames) + bytesgen.continuation_flood(ch, ch.pick([1, 3, 5, 7, 9, 2]))
     stream = b''.join(frames)
